@@ -898,6 +898,14 @@ pub fn select_random() -> Option<u64> {
         Err(_) => None,
     })
 }
+/// The virtual clock for code outside the stubs that reads a clock (async-lock's anti-starvation
+/// rule); `None` when no simulation is active on this thread. Draws nothing.
+pub fn now_if_active() -> Option<u64> {
+    SIM.with(|s| match s.try_borrow() {
+        Ok(b) => b.as_ref().map(|sim| sim.now),
+        Err(_) => None,
+    })
+}
 pub fn decisions() -> Vec<u32> {
     with(|s| s.decisions.clone())
 }
